@@ -1789,10 +1789,12 @@ func (m *repoManager) hideBranch(uuid dvid.UUID, branch string) error {
 		}
 	}
 	del_set := make(map[dvid.VersionID]struct{})
+	del_uuids := make(map[dvid.UUID]struct{})
 	for v, node := range r.dag.nodes {
 		if node.branch == branch {
 			del_set[v] = struct{}{}
 			del_uuid := m.versionToUUID[v]
+			del_uuids[del_uuid] = struct{}{}
 			delete(m.versionToUUID, v)
 			delete(m.uuidToVersion, del_uuid)
 			delete(r.dag.nodes, v)
@@ -1809,6 +1811,13 @@ func (m *repoManager) hideBranch(uuid dvid.UUID, branch string) error {
 		}
 		if len(children) < len(node.children) {
 			node.children = children
+		}
+	}
+	// A data instance created at a hidden version is re-rooted at the repo's root (as it is when
+	// the repo is loaded), or its repo could no longer be found through its root UUID.
+	for _, dataservice := range r.data {
+		if _, hidden := del_uuids[dataservice.RootUUID()]; hidden {
+			dataservice.SetRootUUID(r.uuid)
 		}
 	}
 	// The hidden branch no longer has a head.
